@@ -830,9 +830,7 @@ def random_ann(rng: random.Random, d: int) -> dict:
         return rec(rng.choice(["list", "set", "dict", "tuple"]))
     k = rng.choice(["list", "set", "dict", "tuple", "tuple", "vtuple", "union", "opt", "ann", "array", "tvbound", "tvcons"])
     sub = lambda: random_ann(rng, d - 1)  # noqa: E731
-    if k == "ann":
-        k = rng.choice(ANN_KINDS)          # what kind of object the metadata is
-    if k in ("list", "set", "vtuple", "opt", "array", *ANN_KINDS):
+    if k in ("list", "set", "vtuple", "opt", "ann", "array"):
         return rec(k, sub())
     if k == "dict":
         return rec(k, rec(rng.choice(["int", "str", "Any"])), sub())
@@ -847,6 +845,11 @@ def random_ann(rng: random.Random, d: int) -> dict:
     return rec(k, c1, c2) if c1 != c2 else rec("tvar")
 
 
+def rekind(rng: random.Random, r: dict) -> dict:
+    """The same annotation with another kind of object as the metadata of each of its Annotated."""
+    return rec(rng.choice(ANN_KINDS) if r["k"] == "ann" else r["k"], *[rekind(rng, x) for x in r["a"]])
+
+
 def mutate(rng: random.Random, r: dict, d: int) -> dict:
     """A related annotation: widen / narrow / rewrap one position."""
     x = rng.random()
@@ -855,7 +858,7 @@ def mutate(rng: random.Random, r: dict, d: int) -> dict:
         if y < 0.3:
             return rec("union", r, rec(rng.choice(["str", "None", "float"])))
         if y < 0.45:
-            return rec(rng.choice(ANN_KINDS), r)
+            return rec("ann", r)
         if y < 0.6:
             return {"bool": rec("int"), "int": rec("bool")}.get(r["k"], rec("Any"))
         if y < 0.7 and r["k"] == "tuple" and r["a"]:
@@ -1151,13 +1154,31 @@ def run(ctx: Ctx) -> None:
             skipped += 1
             continue
         rpairs.append((a, b))
+    #    ... and every sampled pair that mentions Annotated once more with other kinds of metadata object (a generator of
+    #    its own: the pairs above do not depend on it); an Annotated without a hash cannot be written inside a Union
+    rng_meta = random.Random(ctx.seed * 7919 + 16)
+    nplain = len(rpairs)
+    for a, b in rpairs[:nplain]:
+        if not (contains(a, ("ann",)) or contains(b, ("ann",))):
+            continue
+        a2, b2 = rekind(rng_meta, a), rekind(rng_meta, b)
+        if (a2, b2) == (a, b):
+            continue
+        try:
+            for r in (a2, b2):
+                for style in STYLES:
+                    u.objects(r, style)
+        except MachineryError:
+            skipped += 1
+            continue
+        rpairs.append((a2, b2))
     chunks = [rpairs[i: i + 1500] for i in range(0, len(rpairs), 1500)]
     with ThreadPoolExecutor(max_workers=8) as ex:
         rv = list(ex.map(lambda ic: adhoc_verdicts(ctx, f"random_{ic[0]}", ic[1])[0], enumerate(chunks)))
     ritems = [(a, b, v, 0) for ch, vs in zip(chunks, rv) for (a, b), v in zip(ch, vs)]
     badr = check_pairs(ctx, u, ritems, STYLES, "random depth<=3")
     ctx.traces_validated += len(ritems) - len(set(badr))
-    ctx.extra["random_pairs_depth3"] = {"n": len(ritems), "not_expressible_skipped": skipped, "verdicts": {v: sum(1 for x in ritems if x[2] == v)
+    ctx.extra["random_pairs_depth3"] = {"n": len(ritems), "with_other_metadata_kinds": len(rpairs) - nplain, "not_expressible_skipped": skipped, "verdicts": {v: sum(1 for x in ritems if x[2] == v)
                                                                        for v in ("yes", "no", "either")}}
     classes: dict[str, int] = {}
     for v in ctx.violations:
